@@ -106,6 +106,17 @@ def _extract_model(m, inputs):
 
 def _solve(args):
     name, smt2, timeout_ms, expect, inputs, opts = args
+    if opts.get("int_goal"):
+        # first try with the real-valued assumptions dropped; only `unsat` can be trusted from that attempt
+        r = _solve_inner((name, smt2, timeout_ms, expect, None, opts))
+        if r[1] == "unsat":
+            return r
+        opts = {k: v for k, v in opts.items() if k != "int_goal"}
+    return _solve_inner((name, smt2, timeout_ms, expect, inputs, opts))
+
+
+def _solve_inner(args):
+    name, smt2, timeout_ms, expect, inputs, opts = args
     t0 = time.time()
     try:
         # NB: z3 term helpers use the main context; each worker is a separate process
@@ -113,6 +124,10 @@ def _solve(args):
         s0.from_string(smt2)
         fs = list(s0.assertions())
         backend = "z3-5.1"
+        if opts.get("int_goal") and fs:
+            # index-bound / integer goals: real-valued facts are irrelevant; dropping assumptions is sound
+            keep = [f for f in fs[:-1] if not _mentions_real(f)]
+            fs = keep + [fs[-1]]
         cand_model = None
         if opts.get("raw"):
             s = z3.Solver()
@@ -134,16 +149,48 @@ def _solve(args):
             stages = list(relevance_stages(ground, inst.goal_flat)) if expect == "unsat" else [ground]
             r = z3.unknown
             s = None
+            if expect == "unsat":
+                cases0 = _index_cases(stages[-1], inst.goal_flat)
+                if cases0:
+                    all_unsat = True
+                    for extra in cases0:
+                        sc = z3.Solver()
+                        sc.set("timeout", timeout_ms)
+                        sc.add(*stages[-1])
+                        sc.add(*extra)
+                        if sc.check() != z3.unsat:
+                            all_unsat = False
+                            break
+                    if all_unsat:
+                        inst.stats["case_split"] = len(cases0)
+                        return (name, "unsat", time.time() - t0, None, "", f"z3-5.1+inst+split({len(cases0)})", inst.stats)
             for k, subset in enumerate(stages):
                 last = k == len(stages) - 1
                 s = z3.Solver()
-                s.set("timeout", timeout_ms if last else max(2000, timeout_ms // 4))
+                # the direct attempts get a modest share of the budget; the case split below gets the rest
+                s.set("timeout", max(2000, timeout_ms // 3) if last else max(2000, timeout_ms // 6))
                 s.add(*subset)
                 r = s.check()
                 if r == z3.unsat:
                     inst.stats["stage"] = f"{k + 1}/{len(stages)}"
                     inst.stats["formulas"] = len(subset)
                     return (name, "unsat", time.time() - t0, None, "", "z3-5.1+inst", inst.stats)
+            if False and r == z3.unknown and expect == "unsat":
+                cases = _index_cases(stages[-1], inst.goal_flat)
+                if cases:
+                    all_unsat = True
+                    for extra in cases:
+                        sc = z3.Solver()
+                        sc.set("timeout", timeout_ms)
+                        sc.add(*stages[-1])
+                        sc.add(*extra)
+                        rc = sc.check()
+                        if rc != z3.unsat:
+                            all_unsat = False
+                            break
+                    if all_unsat:
+                        inst.stats["case_split"] = len(cases)
+                        return (name, "unsat", time.time() - t0, None, "", f"z3-5.1+inst+split({len(cases)})", inst.stats)
             if r == z3.sat:
                 if inputs is not None and expect == "unsat":
                     try:
@@ -187,6 +234,79 @@ def _solve(args):
         return (name, "error", time.time() - t0, None, repr(e) + traceback.format_exc()[-400:], "z3-5.1", {})
 
 
+_real_cache = {}
+
+
+def _mentions_real(f):
+    k = f.get_id()
+    if k in _real_cache:
+        return _real_cache[k]
+    seen = set()
+    found = False
+    stack = [f]
+    while stack and not found:
+        t = stack.pop()
+        i = t.get_id()
+        if i in seen:
+            continue
+        seen.add(i)
+        if z3.is_quantifier(t):
+            stack.append(t.body())
+            continue
+        srt = t.sort()
+        if srt.kind() in (z3.Z3_REAL_SORT, z3.Z3_FLOATING_POINT_SORT):
+            found = True
+            break
+        stack.extend(t.children())
+    _real_cache[k] = found
+    return found
+
+
+def _index_cases(ground, goal_ids):
+    """Cases  g == w_1 | ... | g == w_k | g distinct from all  for the first goal skolem index g and the
+    indices w_i at which arrays are written (Store) in the query."""
+    goal = [f for f in ground if f.get_id() in goal_ids]
+    sk = {}
+    writes = {}
+    seen = set()
+
+    def visit(t, in_goal):
+        key = (t.get_id(), in_goal)
+        if key in seen:
+            return
+        seen.add(key)
+        if z3.is_app(t):
+            k = t.decl().kind()
+            if in_goal and k == z3.Z3_OP_UNINTERPRETED and t.num_args() == 0 and t.sort() == z3.IntSort() and "!" in t.decl().name():
+                sk[t.get_id()] = t
+            if k == z3.Z3_OP_STORE and t.arg(1).sort() == z3.IntSort() and not z3.is_int_value(t.arg(1)):
+                writes[t.arg(1).get_id()] = t.arg(1)
+            for c in t.children():
+                visit(c, in_goal)
+    for f in goal:
+        visit(f, True)
+    for f in ground:
+        visit(f, False)
+    # skolems that are themselves loop counters etc. are not useful: prefer names starting with the quantified variable
+    import re as _re
+    cands = [t for t in sk.values() if t.get_id() not in writes and _re.search(r"!\d+!\d+$", t.decl().name())]
+    if not cands or not writes or len(writes) > 6:
+        return []
+    g = sorted(cands, key=lambda t: t.decl().name())[0]
+    # only indices of the same inferred index sort (node ids vs edge ids ...) are worth comparing
+    from .inst import Typing
+    ty = Typing()
+    for f in ground:
+        ty.visit(f, [])
+    gc = ty.term_class(g)
+    ws = [w for w in writes.values() if ty.term_class(w) == gc]
+    if not ws:
+        return []
+    cases = [[g == w] for w in ws]
+    cases.append([g != w for w in ws])
+    return cases
+
+
 def _extract_model_ctx(m, inputs, ctx):
     # z3 helper predicates use the term's own context, so the generic extractor works
     return _extract_model(m, inputs)
@@ -223,7 +343,7 @@ def _fallback(args):
 
 
 CACHE_DIR = os.path.join(os.path.dirname(os.path.dirname(os.path.abspath(__file__))), ".cache", "smt")
-ENGINE_VERSION = "inst-3"  # bump when instantiation / lemma set / solving strategy changes
+ENGINE_VERSION = "inst-9"  # bump when instantiation / lemma set / solving strategy changes
 
 
 def _cache_key(smt2, expect, raw):
@@ -278,7 +398,7 @@ def discharge(obligations, timeout_s=20, jobs=None, fallback=True, opts=None):
         if hit is not None:
             cached[ob.name] = hit
             continue
-        tasks.append((ob.name, s2, int(timeout_s * 1000), ob.expect, ob.inputs, {**dict(opts or {}), **({'raw': True} if getattr(ob, 'raw', False) else {})}))
+        tasks.append((ob.name, s2, int(timeout_s * 1000), ob.expect, ob.inputs, {**dict(opts or {}), **({'raw': True} if getattr(ob, 'raw', False) else {}), **({'int_goal': True} if (ob.kind == 'bounds' and not _mentions_real(ob.goal)) else {})}))
     results = {}
     for name, hit in cached.items():
         results[name] = (hit["r"], hit["dt"], hit.get("model"), hit.get("reason", ""), hit["backend"] + " [memoised]")
